@@ -1322,7 +1322,11 @@ def run(ctx):
         "inputs = (macro, args, premise sequents): (a) every macro invocation recorded (eval/expand/get_proof_term wrappers on the "
         "registered macro objects) while re-checking the stored proofs of library/*.json; (b) mutations of those (drop/duplicate/permute/"
         "replace a premise, change a premise's statement or hypotheses, replace/swap/negate/retype a subterm of an argument, other theorem "
-        "name, edited instantiation); (c) per-family generators. Distinct by structural key of the input; non-trivial = an expansion is produced.")
+        "name, edited instantiation; numerals are kept atomic and constants at instances of their declared types); (c) per-family generators "
+        "(nat/int/real arithmetic, fun_upd, avalI, imp_conj/imp_disj, resolution, basic logic macros, veriT rules via harness/props/c18.py); "
+        "(d) the macro steps nested in every checked expansion, as inputs of their own (depth 2). Distinct by structural key of the input; "
+        "non-trivial = an expansion is produced. Export tie: harvested proof terms and synthetic derivations from primitive rules "
+        "(repeated sub-derivations, equal conclusions under different hypotheses).")
     # 1. registry table + Lean obligations
     try:
         table = scan_macros(ctx.repo)
